@@ -1,6 +1,7 @@
 /* C03 harness: argument-facing real-time MIDI functions, extracted on every run (extracted.c). */
 #include "rt_contracts.h"
 unsigned g_other_calls; pl_cell_NoteInfo g_note_cell; const OpnInstMeta g_cell_instrument; MIDIchannel g_chan_win[1]; MIDIchannel g_chan_before;
+static void MIDIchannel_updateBendSensitivity(MIDIchannel *self);
 #include "extracted.c"
 #define REACH(cond, name) __CPROVER_assert(!(cond), "REACH " name)
 uint8_t nondet_u8(void); uint16_t nondet_u16(void);
@@ -22,3 +23,7 @@ void h_realTime_NoteAfterTouch(void)
     realTime_NoteAfterTouch(in_channel, in_a, in_b);
     REACH(in_channel == 16 && in_a == 200, "ch16 note 200"); REACH(g_chan_win[0].noteAfterTouchInUse, "in use");
 }
+size_t nondet_size(void); unsigned nondet_unsigned(void); _Bool nondet_bool(void);
+void h_updatePortamento(void) { g_play.m_midiChannels = g_midiChannels_storage; updatePortamento(nondet_size()); REACH(g_midiChannels_storage[15].portamentoEnable, "enabled"); }
+void h_setRPN(void) { g_play.m_midiChannels = g_midiChannels_storage; setRPN(nondet_size(), nondet_unsigned(), nondet_bool()); REACH(g_midiChannels_storage[2].bendsense_msb == 12, "bend range 12"); REACH(g_midiChannels_storage[7].vibdelay_us > 0, "xg vibrato delay"); }
+void h_resetAllControllers121(void) { MIDIchannel_resetAllControllers121(&g_midiChannels_storage[nondet_size() % 16]); REACH(1, "returns"); }
